@@ -196,6 +196,10 @@ def gen_member_case(rng, cid):
         graceful = rng.random() < 0.6
         if graceful:
             ops.append({"op": "leave", "n": L})
+            if rng.random() < 0.3:
+                # the departing node compacts (its shutdown left tombstones behind) before it tells anybody
+                ops.append({"op": "delete", "n": L, "k": H(rng.choice(KEYS[:4]))})
+                ops.append({"op": "compact", "n": L, "th": 1})
             for y in surv:
                 if rng.random() < 0.7:
                     ops.append({"op": "leavestream", "a": L, "b": y})
